@@ -16,6 +16,8 @@ from ..sym import ENG, SNum, SBool, EngineSignal, declare_bounds
 from ..symnp import SArr, WriteToProtected
 from ..run import H, explore_case, jsonable
 
+from . import layera_match as LAM
+
 PROP = "C04"
 LIM = 1 << 24
 DT_BITS = {"uint8": 8, "uint16": 16, "uint32": 32, "uint64": 64}
@@ -43,10 +45,14 @@ def cases(tier):
                 lms = label_maps(npred, nref)
                 for i in range(0, len(lms), 9):
                     out.append({"name": "%s_p%d_r%d_m%02d" % (dt, npred, nref, i), "dtype": dt, "npred": npred, "nref": nref, "maps": lms[i:i + 9]})
+    # the same obligations through the WHOLE matcher (match_instances incl. overlap-pair extraction), caller arrays write-protected
+    out += LAM.matcher_cases(tier, PROP)
     return out
 
 
 def run_case(case):
+    if case.get("what") == "layerA_matcher":
+        return LAM.run_matcher_case(case, PROP, {"assign": "matched_label_carried_and_fresh_labels_distinct_through_the_matcher"})
     from ..twin import get_twin
     T = get_twin()
     IM = T.mod("panoptica.instance_matcher")
@@ -175,4 +181,4 @@ def real_relabel(case, mode, expect):
     return {"match": ok, "why": None if ok else "relabelled prediction differs from the twin: %s" % (expect,), "violates": bad is not None, "reason": bad, "observed": obs}
 
 
-REAL = {"relabel": real_relabel}
+REAL = {"relabel": real_relabel, "layerA_matcher": lambda case, mode, expect: LAM.real_matcher(case, mode, expect, {"assign": "matched_label_carried_and_fresh_labels_distinct_through_the_matcher"})}
